@@ -401,6 +401,29 @@ def impl_kernel(case):
             st.append(hi)
         s2, t2, _n = _get_mask_pairs(so, st, np.array(case["c"], dtype=np.intp), np.array(case["idx"], dtype=np.intp))
         return {"out": [[int(x), int(y)] for x, y in zip(s2, t2, strict=True)]}
+    if k == "csrcsr":
+        f = C._dot_csr_csr_type(i64, i64)
+        ar = lambda v: np.array(v, dtype=np.intp)   # noqa: E731
+        d, ind, ptr = f((case["n_row"], case["n_col"]), np.array(case["ad"], dtype=np.int64), np.array(case["bd"], dtype=np.int64),
+                        ar(case["ai"]), ar(case["bi"]), ar(case["ap"]), ar(case["bp"]))
+        return {"out": [[int(v) for v in d], [int(v) for v in ind], [int(v) for v in ptr]]}
+    if k == "cscnd":
+        f = C._dot_csc_ndarray_type_sparse(i64, i64)
+        ar = lambda v: np.array(v, dtype=np.intp)   # noqa: E731
+        b = np.array(case["b"], dtype=np.int64).reshape(case["bK"], case["bC"])
+        d, ind, ptr = f((case["a_rows"], case["bK"]), (case["bK"], case["bC"]), np.array(case["ad"], dtype=np.int64), ar(case["ai"]), ar(case["ap"]), b)
+        return {"out": [[int(v) for v in d], [int(v) for v in ind], [int(v) for v in ptr]]}
+    if k == "uncompress":
+        from sparse.numba_backend._compressed.convert import uncompress_dimension
+        return {"out": [int(v) for v in uncompress_dimension(np.array(case["indptr"], dtype=np.intp))]}
+    if k == "linearize":
+        from sparse.numba_backend._compressed.convert import _linearize
+        ar = lambda v: np.array(v, dtype=np.intp)   # noqa: E731
+        n = len(case["xs"])
+        lin = np.zeros(n, dtype=np.intp)
+        co = np.zeros((2, n), dtype=np.intp)
+        _linearize(ar(case["xs"]), ar(case["shape"]), ar(case["order"]), ar(case["rshape"]), ar(case["cshape"]), lin, co)
+        return {"out": [[int(v) for v in lin], [int(v) for v in co[0]], [int(v) for v in co[1]]]}
     if k == "search":
         @numba.njit
         def ss(a, v, right):
@@ -475,7 +498,20 @@ def gen_cases(tier, seed):
                 idxs += [["t", [["i", v] for v in c]] for c in combos]
         idxs += [["t", [["sl", None, None, None], ["i", 7]]], ["t", [["i", 0], ["f", 1.5]]],
                  ["t", [["n"], ["i", 0]]], ["t", [["li", [0, 1]], ["li", [0, 1]]]], ["t", [["li", [0, 1]], ["li", [0]]]]]
+        # integer-array / list indices sitting exactly on, just above and just below the bounds of each axis
+        # (entry == n is the first out-of-bounds position; -n-1 the first below), alone and next to valid entries
+        boundary = []
+        for ax in range(nd):
+            n = sp["shape"][ax]
+            for ent in ([n], [n + 1], [-n - 1], [0, n] if n else [n, n], [-n - 1, -1] if n else [-1]):
+                for tag in ("li", "ai"):
+                    pre = [["sl", None, None, None]] * ax
+                    boundary.append(["t", pre + [[tag, ent]]])
+                    if ax and all(sp["shape"][:ax]):
+                        boundary.append(["t", [["i", 0]] * ax + [[tag, ent]]])
         for fmt in fmts_for(sp, ("coo", "gcxs", "dok")):
+            for ix in boundary:
+                add("getitem", with_fmt(sp, fmt, rng), idx=ix, advanced=True, boundary=True)
             sel = idxs if fmt == "coo" else rng.sample(idxs, min(len(idxs), 20 if tier == "quick" else 60))
             for ix in sel:
                 adv = any(t in json.dumps(ix) for t in ('"li"', '"ai"', '"lb"'))
@@ -766,6 +802,42 @@ def gen_kernel_cases(tier, seed):
             c[lo:hi] = sorted(c[lo:hi])
         idx = [rng.randint(0, 4), rng.randint(0, 6), rng.choice([1, 1, 2, 3])]
         out.append({"k": "pairs", "pairs": pairs, "c": c, "idx": idx})
+    def csr(rows, cols):
+        ind, dat, ptr = [], [], [0]
+        for _r in range(rows):
+            cs = sorted(c for c in range(cols) if rng.random() < 0.5)
+            ind += cs
+            dat += [rng.choice([-2, -1, 1, 2, 3]) for _ in cs]
+            ptr.append(len(ind))
+        return ind, dat, ptr
+    for R, K, C in itertools.product([0, 1, 2, 3], repeat=3):
+        for _ in range(2 if tier == "quick" else 6):
+            ai, ad, ap = csr(R, K)
+            bi, bd, bp = csr(K, C)
+            out.append({"k": "csrcsr", "ai": ai, "ad": ad, "ap": ap, "bi": bi, "bd": bd, "bp": bp, "n_row": R, "n_col": C})
+            # a (R x K) column-compressed: K columns holding row numbers < R; b dense K x C
+            ci, cd, cp = csr(K, R)
+            b = [[rng.choice([-1, 0, 0, 1, 2]) for _ in range(C)] for _ in range(K)]
+            out.append({"k": "cscnd", "ai": ci, "ad": cd, "ap": cp, "b": b, "a_rows": R, "bK": K, "bC": C})
+    for _ in range(n // 3):
+        cnts = [rng.randint(0, 3) for _ in range(rng.randint(0, 5))]
+        ptr = [0]
+        for c in cnts:
+            ptr.append(ptr[-1] + c)
+        out.append({"k": "uncompress", "indptr": ptr})
+        shape = [rng.randint(1, 3) for _ in range(rng.randint(1, 3))]
+        size = 1
+        for d in shape:
+            size *= d
+        order = list(range(len(shape)))
+        rng.shuffle(order)
+        rshape = [shape[a] for a in order]
+        cut = rng.randint(0, len(shape))
+        r0 = 1
+        for d in rshape[:cut]:
+            r0 *= d
+        xs = sorted(rng.sample(range(size), rng.randint(0, size)))
+        out.append({"k": "linearize", "xs": xs, "shape": shape, "order": order, "rshape": rshape, "cshape": [r0, size // r0]})
     for _ in range(n):
         a = sorted(rng.randint(0, 6) for _ in range(rng.randint(0, 8)))
         out.append({"k": "search", "a": a, "v": rng.randint(-1, 7), "right": rng.random() < 0.5})
@@ -968,6 +1040,23 @@ OP_FAMILY = {"sum": "reduce", "max": "reduce", "min": "reduce", "any": "reduce",
              "getitem": "index", "dok_set": "index", "dot": "product", "matmul": "product", "tensordot": "product"}
 
 
+def py_verdict(orc, al, status, impl):
+    """the oracle-vs-implementation part of Corr/C18Judge.v:judge_api (used only when Coq cannot evaluate)"""
+    if status == 1 or impl.get("hang"):
+        return 10
+    if status == 2 or "crash" in impl:
+        return 11
+    if impl.get("k") == "exc":
+        e = impl.get("exc")
+        clean = e in CLEAN
+        if orc == 0:
+            return 0 if clean or (al and e == "NotImplementedError") else 21
+        if al:
+            return 0 if clean or e == "NotImplementedError" else 41
+        return 40 if clean else 41
+    return 20 if orc == 0 else 0
+
+
 def replay_line(case):
     return ("import sys; sys.path.insert(0, '/verif/tools'); import json, props.c18 as m; "
             f"print(json.dumps(m.impl_case(json.loads({json.dumps(json.dumps(case))})), default=str))")
@@ -999,6 +1088,17 @@ def kernel_lit(c, r):
     elif k == "pairs":
         ps = list(range(c["idx"][0], c["idx"][1], c["idx"][2]))
         body = f"KMaskPairs {trip(c['pairs'])} {zl(c['c'])} {zl(ps)} {trip(o)}"
+    elif k in ("csrcsr", "cscnd", "linearize"):
+        t3 = "(%s, %s, %s)" % tuple(zl(x) for x in (o if len(o) == 3 else [[], [], []]))
+        if k == "csrcsr":
+            body = (f"KDotCsrCsr {zl(c['ai'])} {zl(c['ad'])} {zl(c['ap'])} {zl(c['bi'])} {zl(c['bd'])} {zl(c['bp'])} "
+                    f"{vZ(c['n_row'])} {vZ(c['n_col'])} {t3}")
+        elif k == "cscnd":
+            body = f"KDotCscNd {zl(c['ai'])} {zl(c['ad'])} {zl(c['ap'])} {rows(c['b'])} {vZ(c['a_rows'])} {vZ(c['bK'])} {vZ(c['bC'])} {t3}"
+        else:
+            body = f"KLinearize {zl(c['xs'])} {zl(c['shape'])} {zl(c['order'])} {zl(c['rshape'])} {zl(c['cshape'])} {t3}"
+    elif k == "uncompress":
+        body = f"KUncompress {zl(c['indptr'])} {zl(o)}"
     else:
         body = f"KSearch {vbool(c['right'])} {zl(c['a'])} {vZ(c['v'])} {vZ(o)}"
     return f"({status}, {body})"
@@ -1067,12 +1167,12 @@ def campaign(build, tier, seed, report, budget=1):
     t0 = time.time()
     res, sus1 = run_watchdogged("impl_case", cases, api_group, lambda c: c["op"])
     t1 = time.time()
-    kres, sus2 = run_watchdogged("impl_kernel", kcases, lambda c: 0 if c["k"] in ("dcn", "dcns", "dnc", "dncs") else 1, lambda c: c["k"])
+    kres, sus2 = run_watchdogged("impl_kernel", kcases, lambda c: 0 if c["k"] in ("dcn", "dcns", "dnc", "dncs") else 2 if c["k"] in ("csrcsr", "cscnd") else 1, lambda c: c["k"])
     t2 = time.time()
     report["notes"].append(f"{sus1 + sus2} cases exceeded the {4 * WATCHDOG:.0f} s watchdog in the first pass and were re-run under 120 s; "
                            f"implementation side: API {t1 - t0:.0f} s, kernels {t2 - t1:.0f} s")
 
-    lits, keep = [], []
+    lits, keep, pyv = [], [], []
     harness_errors = []
     oracle_hist = {}
     for i, (c, r) in enumerate(zip(cases, res, strict=True)):
@@ -1125,30 +1225,38 @@ def campaign(build, tier, seed, report, budget=1):
         al = bool(allowed(c, r.get("impl")))
         impl_lit = vlib.sarr_lit(r["impl"]) if not status else "SOther"
         lits.append(vpair(vZ(orc), zl(sh), zl(flat), vbool(al), model_of(c), vZ(status), impl_lit))
+        pyv.append((orc, al, status))
         keep.append(i)
 
     try:
         bad = build.judge("c18_api", "From Verif Require Import Py NpValid Validators COO GCXS SArr C18Judge.", "api_case", "judge_api", lits)
     except vlib.CoqEvalError:
-        # the Coq side does not build (a proof obligation broke, e.g. a generated fragment changed): a hang or a
-        # dead worker is a failing input whatever the model says, so report those before giving up
+        # The Coq side does not build (a proof obligation broke, e.g. a generated fragment changed).  The search for
+        # a concrete failing input must not depend on it: the oracle-vs-implementation part of judge_api (codes
+        # 10/11/20/21/40/41: hang, crash, invalid accepted, wrong class, valid rejected, internal error) is
+        # recomputed here in Python; the model-dependent codes (50-53) and the value comparison are skipped.
         fb = []
-        for i, (c, r) in enumerate(zip(cases, res, strict=True)):
-            st = 1 if (r is None or r.get("hang") or (r.get("impl") or {}).get("hang")) else 2 if (r and ("crash" in r or "crash" in (r.get("impl") or {}))) else 0
-            if st:
-                fb.append({"property": "C18", "op": OP_FAMILY.get(c["op"], c["op"]), "api": c["op"], "kind": "value",
-                           "clause": ("hang:" if st == 1 else "interpreter_crash:") + c["op"], "code": 10 if st == 1 else 11,
-                           "case": _short(c), "impl": {"hang": True} if st == 1 else {"crash": True}, "oracle": None,
-                           "note": "verdict without Coq: the judge modules did not build", "replay_py": replay_line(_strip(c))})
+        for (orc, al, st), i in zip(pyv, keep, strict=True):
+            c, r = cases[i], res[i]
+            code = py_verdict(orc, al, st, r.get("impl") or {})
+            if code:
+                cl = clause_of(c, code, r)
+                fam = c["op"] if ":" in cl and cl.split(":")[0] in GENERIC_KINDS else OP_FAMILY.get(c["op"], c["op"])
+                fb.append({"property": "C18", "op": fam, "api": c["op"], "kind": "value", "clause": cl, "code": code,
+                           "format": (c.get("a") or {}).get("format"), "case": _short(c), "impl": _short_res(r.get("impl")),
+                           "oracle": _short_res(r.get("np")) if r.get("np") is not None else "Spec",
+                           "note": "verdict computed without Coq: the judge modules did not build",
+                           "replay_py": replay_line(_strip(c))})
         for c, r in zip(kcases, kres, strict=True):
             st = 1 if (r is None or r.get("hang")) else 2 if "crash" in r else 0
             if st:
                 fb.append({"property": "C18", "op": "kernel:" + c["k"], "kind": "value", "clause": ("hang:kernel:" if st == 1 else "interpreter_crash:kernel:") + c["k"],
-                           "code": 10 if st == 1 else 11, "case": c, "impl": r, "note": "verdict without Coq: the judge modules did not build",
+                           "code": 10 if st == 1 else 11, "case": c, "impl": r, "note": "verdict computed without Coq: the judge modules did not build",
                            "replay_py": ("import sys; sys.path.insert(0, '/verif/tools'); import json, props.c18 as m; "
                                          f"print(m.impl_kernel(json.loads({json.dumps(json.dumps(c))})))")})
+        report["notes"].append("Coq evaluation unavailable; oracle-vs-implementation verdicts were computed in Python")
+        report["coverage"]["evaluations"] = len(keep)
         if fb:
-            report["notes"].append("Coq evaluation unavailable; reporting the hangs / crashes observed on the implementation side")
             return fb
         raise
     # cross-check of the Python-side GCXS well-formedness predicate against Model/GCXS.v:gcxs_wfb
